@@ -235,6 +235,8 @@ def generate(run, module, cfg_text, name, fam=None, workers=None, timeout=900, c
                 continue
             seen.add(dk)
             key = hashlib.md5((k + str(run.seed)).encode()).hexdigest()
+            if sc.get("pin"):
+                key = "!" + key    # pinned scenarios sort first: the cap never drops them
             if cap and len(heap) >= cap:
                 if key < heap[0][0].key:
                     heapq.heapreplace(heap, (_Rev(key), k))
